@@ -184,6 +184,8 @@ class ModGen:
         self.temp_names = temp_names      # probability that a module uses reserved temporary names (.lc<N>, t<N>)
         self.lc_pool = []
         self.treg = False
+        self.loaded = False
+        self.prev_strings = []
         self.nlabels = label_base      # labels made so far in the context
         self.stmts = []
         self.closed = False
@@ -252,7 +254,8 @@ class ModGen:
             t = rng.choice(INT_T + ['f', 'd', 'ld', 'i64', 'blk0', 'blk1', 'blk2', 'blk3', 'blk4', 'rblk'])
             n = 'a%d%s' % (i, rng.choice(['', '_', 'x']))
             if t.startswith('blk') or t == 'rblk':
-                args.append('%s:%s:%d' % (t, n, rng.choice([0, 1, 8, 16, 24, 100, 2**31, 2**32 - 1])))
+                args.append('%s:%s:%d' % (t, n, rng.choice([0, 1, 8, 16, 24, 100, 2**31, 2**32 - 1]
+                                                               + ([] if self.text_safe else [2**32, 2**40 + 1, 2**64 - 1]))))
             else:
                 args.append('%s:%s' % (t, n))
         vararg = 1 if (nargs > 0 or not for_func) and rng.random() < 0.2 else 0
@@ -323,8 +326,25 @@ class ModGen:
         if mode == 'int' and k < 0.78 and self.items:
             return 'ref:' + rng.choice(self.items)[0]
         if mode == 'int' and k < 0.84:
-            return 's:' + rand_bytes(rng, self.text_safe).hex()
+            return 's:' + self.string_bytes().hex()
         return self.imm(mode)
+
+    def string_bytes(self):
+        """a string operand; now and then a pair of strings of equal length that agree up to an embedded NUL and differ
+        after it (a string table comparing with strcmp/strncmp would merge them)"""
+        rng = self.rng
+        if self.prev_strings and rng.random() < 0.35:
+            p, k = rng.choice(self.prev_strings)
+            tail = bytes((c + 1 + rng.randint(0, 200)) % 256 for c in p[k + 1:len(p) - 1])
+            s = p[:k + 1] + tail + p[len(p) - 1:]
+            if s != p:
+                return s
+        s = rand_bytes(rng, self.text_safe)
+        if len(s) >= 4 and rng.random() < 0.5:
+            k = rng.randint(0, len(s) - 3)
+            s = s[:k] + b'\0' + s[k + 1:]
+            self.prev_strings.append((s, k))
+        return s
 
     def new_labels(self, k):
         self.emit('mklabels %d' % k)
@@ -590,7 +610,7 @@ class ModGen:
                     mix('m:i64:%d:q:-:1:-:-' % (i * 16))
                     mix('m:u16:%d:q:-:1:-:-' % (i * 16 + 8))
             elif k == 'str':
-                s = rand_bytes(rng, ts)
+                s = self.string_bytes()
                 if len(s) == 0:
                     s = b'\0'
                 E('insn mov r:q s:%s' % s.hex())
@@ -674,6 +694,7 @@ class ModGen:
     def gen_module(self, name, n_items, with_exec, closed=False):
         rng = self.rng
         self.closed = closed
+        self.loaded = closed          # every module of an executed case is loaded: no huge bss there
         self.emit('module %s' % name)
         self.items = []
         self.protos = []
@@ -724,7 +745,10 @@ class ModGen:
             elif k == 'bss':
                 named = rng.random() < 0.7
                 n = self.fresh('b') if named else None
-                self.emit('bss %s %d' % (n or '-', rng.choice([0, 1, 8, 127, 128, 4096, 2**20])))
+                lens = [0, 1, 8, 127, 128, 4096, 2**20]
+                if not self.loaded:
+                    lens += [2**31, 2**32 - 1, 2**32, 2**32 + 5, 2**40 + 1, 2**63 - 1] + ([] if self.text_safe else [2**63, 2**64 - 1])
+                self.emit('bss %s %d' % (n or '-', rng.choice(lens)))
                 if named:
                     self.items.append((n, 'bss'))
             elif k == 'data':
